@@ -198,7 +198,7 @@ class ParseVector(Contract):
         o, vec, inv = ctx.data["self"], ctx.data["vec"], ctx.data["inv"]
         m = o.fields.get("metrics")
         if inv is None or not isinstance(m, SMap):
-            ctx.fail("post:loop", "parse_vector returned without running its field loop over a metric map")
+            ctx.fail("post:loop", "parse_vector returned without running its field loop over a metric map", status="unknown")
             return
         ctx.prove("post:syn", g.syn(vec.z), "normal return implies the vector is in the version's grammar")
         ctx.prove("post:parsed", g.parsed(vec.z, m.dom, m.val, inv.src),
